@@ -502,4 +502,11 @@ def c13_k(ctx: Ctx):
     return out
 
 
-RULES = [c13_a, c13_b, c13_c, c13_d, c13_e, c13_f, c13_g, c13_h, c13_i, c13_j, c13_k]
+@rule("C13-l")
+def c13_l(ctx: Ctx):
+    """signac sync: the selection names source jobs (not computed in the destination) and an empty selection selects nothing."""
+    from . import cli
+    return cli.selection_from_source(ctx, "C13-l") + cli.selection_discipline(ctx, "C13-l", {"main_sync"})
+
+
+RULES = [c13_a, c13_b, c13_c, c13_d, c13_e, c13_f, c13_g, c13_h, c13_i, c13_j, c13_k, c13_l]
